@@ -13,7 +13,7 @@ import (
 	"github.com/oasisprotocol/curve25519-voi/internal/verif/ref/refx"
 )
 
-func unhex(s string) []byte {
+func unhexX(s string) []byte {
 	b, err := hex.DecodeString(s)
 	if err != nil {
 		panic(err)
@@ -28,19 +28,19 @@ func init() {
 			{"a546e36bf0527c9d3b16154b82465edd62144c0ac1fc5a18506a2244ba449ac4", "e6db6867583030db3594c1a424b15f7c726624ec26b3353b10a903a6d0ab1c4c", "c3da55379de9c6908e94ea4df28d084f32eccf03491c71f754b4075577a28552"},
 			{"4b66e9d4d1b4673c5ad22691957d6af5c11b6421e0ea01d42ca4169e7918ba0d", "e5210f12786811d3f4b7959d0538ae2c31dbe7106fc03c3efc4cd549c715a493", "95cbde9476e8907d7aade45cb4b873f88b595a68799fa152e6f8f7647aac7957"},
 		} {
-			check("rfc7748 5.2 vector", bytes.Equal(refx.X25519(unhex(v[0]), unhex(v[1])), unhex(v[2])))
+			check("rfc7748 5.2 vector", bytes.Equal(refx.X25519(unhexX(v[0]), unhexX(v[1])), unhexX(v[2])))
 		}
 		// The decoded integers of the first vector as printed in the RFC.
 		k1, _ := new(big.Int).SetString("31029842492115040904895560451863089656472772604678260265531221036453811406496", 10)
 		u1, _ := new(big.Int).SetString("34426434033919594451155107781188821651316167215306631574996226621102155684838", 10)
-		check("rfc7748 decodeScalar25519", refx.DecodeScalar25519(unhex("a546e36bf0527c9d3b16154b82465edd62144c0ac1fc5a18506a2244ba449ac4")).Cmp(k1) == 0)
-		check("rfc7748 decodeUCoordinate", refx.DecodeUCoordinate(unhex("e6db6867583030db3594c1a424b15f7c726624ec26b3353b10a903a6d0ab1c4c")).Cmp(u1) == 0)
+		check("rfc7748 decodeScalar25519", refx.DecodeScalar25519(unhexX("a546e36bf0527c9d3b16154b82465edd62144c0ac1fc5a18506a2244ba449ac4")).Cmp(k1) == 0)
+		check("rfc7748 decodeUCoordinate", refx.DecodeUCoordinate(unhexX("e6db6867583030db3594c1a424b15f7c726624ec26b3353b10a903a6d0ab1c4c")).Cmp(u1) == 0)
 		// second vector's u has bit 255 set: e5210f...a493 decodes to 8883857351183929894090759386610649319417338800022198945255395922347792736741
 		u2, _ := new(big.Int).SetString("8883857351183929894090759386610649319417338800022198945255395922347792736741", 10)
-		check("rfc7748 decodeUCoordinate masks bit 255", refx.DecodeUCoordinate(unhex("e5210f12786811d3f4b7959d0538ae2c31dbe7106fc03c3efc4cd549c715a493")).Cmp(u2) == 0)
+		check("rfc7748 decodeUCoordinate masks bit 255", refx.DecodeUCoordinate(unhexX("e5210f12786811d3f4b7959d0538ae2c31dbe7106fc03c3efc4cd549c715a493")).Cmp(u2) == 0)
 
 		// Iterated vector.
-		k := unhex("0900000000000000000000000000000000000000000000000000000000000000")
+		k := unhexX("0900000000000000000000000000000000000000000000000000000000000000")
 		u := append([]byte{}, k...)
 		for i := 1; i <= 1000; i++ {
 			r := refx.X25519(k, u)
@@ -52,9 +52,9 @@ func init() {
 		check("rfc7748 iterated 1000", hex.EncodeToString(k) == "684cf59ba83309552800ef566f2f4d3c1c3887c49360e3875f2eb94d99532c51")
 
 		// Section 6.1 Diffie-Hellman.
-		nine := unhex("0900000000000000000000000000000000000000000000000000000000000000")
-		a := unhex("77076d0a7318a57d3c16c17251b26645df4c2f87ebc0992ab177fba51db92c2a")
-		b := unhex("5dab087e624a8a4b79e17f8b83800ee66f3bb1292618b6fd1c2f8b27ff88e0eb")
+		nine := unhexX("0900000000000000000000000000000000000000000000000000000000000000")
+		a := unhexX("77076d0a7318a57d3c16c17251b26645df4c2f87ebc0992ab177fba51db92c2a")
+		b := unhexX("5dab087e624a8a4b79e17f8b83800ee66f3bb1292618b6fd1c2f8b27ff88e0eb")
 		pa, pb := refx.X25519(a, nine), refx.X25519(b, nine)
 		check("rfc7748 6.1 alice pub", hex.EncodeToString(pa) == "8520f0098930a754748b7ddcb43ef75a0dbf3a0d26381af4eba4a98eaa9b4e6a")
 		check("rfc7748 6.1 bob pub", hex.EncodeToString(pb) == "de9edb7d7b7dc1b4d35b61c2ece435373f8343c85b78674dadfc7e146f882b4f")
